@@ -235,10 +235,29 @@ func c05Enumerate(cx *h.Ctx, yield func(C05Case)) []string {
 			yield(C05Case{G: gm.G{T: typ, Zero: true}, Prefix: pre, Respell: codec.Respell{Seps: []string{" "}}, Trailing: ")"})
 		}
 	}
+	// wide collections: many members (also many EMPTY ones) at depth 1 and 2, which the drawn structures (at most a
+	// handful of members) never reach
+	for _, n := range []int{31, 32, 33, 64, 200} {
+		empties := make([]gm.G, n)
+		pts := make([]gm.G, n)
+		for i := range empties {
+			empties[i] = gm.G{T: gm.GeometryCollection}
+			pts[i] = gm.G{T: gm.Point, Co: gm.Fs(float64(i), float64(-i))}
+		}
+		tail := gm.G{T: gm.GeometryCollection, Mem: []gm.G{{T: gm.Point, Co: gm.Fs(1, 2)}}}
+		for _, g := range []gm.G{
+			{T: gm.GeometryCollection, Mem: append(append([]gm.G{}, empties...), tail)},
+			{T: gm.GeometryCollection, Mem: []gm.G{{T: gm.GeometryCollection, Mem: append(append([]gm.G{}, empties...), tail)}, tail}},
+			{T: gm.MultiPoint, Mem: pts},
+			{T: gm.GeometryCollection, Mem: append(append([]gm.G{}, pts...), gm.G{T: gm.MultiPolygon}, gm.G{T: gm.LineString})},
+		} {
+			yield(C05Case{G: g, Respell: codec.Respell{Seps: []string{" "}}, Trailing: "x"})
+		}
+	}
 	for _, r := range c05RejectTexts {
 		yield(C05Case{Reject: r})
 	}
-	return []string{"zero value of Geometry and of the 7 concrete types x 5 AppendWKT prefixes", "15 hostile texts (NaN/Inf numerals, mixed-dimension collections) that must be rejected"}
+	return []string{"collections with 31..200 members (empty sub-collections followed by a non-empty one, at depth 1 and 2; points)", "zero value of Geometry and of the 7 concrete types x 5 AppendWKT prefixes", "15 hostile texts (NaN/Inf numerals, mixed-dimension collections) that must be rejected"}
 }
 
 func TestC05(t *testing.T) {
